@@ -146,23 +146,32 @@ func Call(nodes int, phaseFn func(name string, doc any), f func()) (stats CallSt
 	return
 }
 
-// MsgClass strips input-dependent parts (quoted strings, paths, numbers) from an error or panic message.
-var rxQuoted = regexp.MustCompile(`"[^"]*"|'[^']*'|` + "`[^`]*`")
-var rxPath = regexp.MustCompile(`(/[^\s:,;#"]+)+`)
-var rxNum = regexp.MustCompile(`\d+`)
-var rxRefish = regexp.MustCompile(`#\S*`)
+// MsgClass reduces an error or panic message to its input-independent parts: the text before the first
+// variable part (quote, pointer, path, digit) and the last ": "-separated segment of the first line.
+var rxVar = regexp.MustCompile("[\"'`#/0-9%~{\\[]")
 
 func MsgClass(msg string) string {
 	s := msg
 	if i := strings.IndexByte(s, '\n'); i >= 0 {
 		s = s[:i]
 	}
-	s = rxQuoted.ReplaceAllString(s, "Q")
-	s = rxRefish.ReplaceAllString(s, "R")
-	s = rxPath.ReplaceAllString(s, "P")
-	s = rxNum.ReplaceAllString(s, "N")
-	if len(s) > 120 {
-		s = s[:120]
+	head := s
+	if loc := rxVar.FindStringIndex(s); loc != nil {
+		head = s[:loc[0]]
 	}
-	return s
+	head = strings.TrimRight(head, " :")
+	tail := ""
+	if i := strings.LastIndex(s, ": "); i >= 0 && i+2 < len(s) {
+		tail = s[i+2:]
+		if rxVar.MatchString(tail) {
+			tail = ""
+		}
+	}
+	if tail != "" && !strings.HasSuffix(head, tail) {
+		head += " … " + tail
+	}
+	if len(head) > 120 {
+		head = head[:120]
+	}
+	return head
 }
